@@ -1,3 +1,4 @@
+import GbVerif.Model.Tile
 /-
 Model of the pixel pipeline of `src/devices/video/{mod,tile,lcd}.rs` (hand-written, tied to the
 code by the `c15` correspondence stream): the setters that configure it, `get_tile_address`,
@@ -30,29 +31,6 @@ deriving DecidableEq, Repr
 /-- `const SHADES: [u8; 4] = [255, 170, 85, 0]`, indexed by a value that was masked with `& 3` -/
 def shade (i : Nat) : Nat :=
   if i = 0 then 255 else if i = 1 then 170 else if i = 2 then 85 else 0
-
-/-! ### `tile.rs` -/
-
-def two64 : Nat := 0x10000000000000000
-
-/-- `tile::interleave(low, high)` — the 64-bit multiply trick, literally -/
-def interleave (low high : Nat) : Nat :=
-  let accHigh := (high * 0x0101010101010101) % two64
-  let accHigh := accHigh &&& 0x8040201008040201
-  let accHigh := (accHigh * 0x0102040810204081) % two64
-  let accHigh := accHigh >>> 48
-  let accHigh := accHigh &&& 0xaaaa
-  let accLow := (low * 0x0101010101010101) % two64
-  let accLow := accLow &&& 0x8040201008040201
-  let accLow := (accLow * 0x0102040810204081) % two64
-  let accLow := accLow >>> 49
-  let accLow := accLow &&& 0x5555
-  (accHigh ||| accLow) % 65536
-
-/-- the flip expression of `get_object_row`:
-`(((b as u64 * 0x80200802) & 0x0884422110).wrapping_mul(0x0101010101) >> 32) as u8` -/
-def flipByte (b : Nat) : Nat :=
-  (((((b * 0x80200802) &&& 0x0884422110) * 0x0101010101) % two64) >>> 32) % 256
 
 /-! ### configuration written by the setters (constant over a frame in C15) -/
 
